@@ -4,6 +4,7 @@ k=$1; n=$2
 i=0
 for d in /verif/seeded/*/; do
   i=$((i+1)); [ $(( (i - 1) % n )) -eq $k ] || continue
+  [ -n "${SKIP:-}" ] && grep -qx "$(basename $d)" "$SKIP" && continue
   ids=$(python3 -c "import json,sys; m=json.load(open('$d/meta.json')); print(','.join(m.get('confirmed_by_lead',{}).get('caught_by',[]) or [m.get('property','')]))")
   out=$(PROCS=${PROCS:-4} /verif/tools/try_seeded.sh "${d%/}" $(echo $ids | tr ',' ' ') 2>&1)
   if echo "$out" | grep -q "PATCH DOES NOT APPLY"; then echo "$(basename $d) STALE (patch does not apply to HEAD)"; continue; fi
